@@ -447,6 +447,25 @@ def classJson (c : ClassM) : Json :=
     ("kwOnly", .bool c.opts.kwOnly), ("params", .arr (c.params.map Json.str).toArray),
     ("nHandlers", .num c.opts.classHandlers.length)]
 
+/-- Python `>` on the value kinds the C16 scenarios use (numbers, strings, tuples/lists of them) -/
+partial def pyGt (a b : Val) : Bool :=
+  match a, b with
+  | .str x, .str y => decide (y < x)
+  | .list xs, .list ys | .tuple xs, .tuple ys => seqGt xs ys
+  | a, b =>
+    match a.numParts, b.numParts with
+    | some (x, _), some (y, _) => Flt.cmp x y == some .gt
+    | _, _ => false
+where
+  seqGt : List Val → List Val → Bool
+    | [], _ => false
+    | _ :: _, [] => true
+    | x :: xs, y :: ys => if Val.pyEq x y then seqGt xs ys else pyGt x y
+
+def optBoolJson : Option Bool → Json
+  | some b => .bool b
+  | none => .str "NotImplemented"
+
 structure Tables where
   ext : List (String × Val × Except Exc Val) := []
   strs : List (Val × String) := []
@@ -647,7 +666,11 @@ def runOp (sc : Scen) (j : Json) : P Json := do
     | .error (.valueError _) => pure (Json.mkObj [("classError", "ValueError")])
     | .ok cs =>
       match cs.getLast? with
-      | some (_, c) => pure (Json.mkObj [("class", classJson c)])
+      | some (_, c) =>
+        let explicit ← jbool (jfieldD j "explicit_hash" (.bool false))
+        let act := (Facts.hashAction.lookup (c.opts.unsafeHash, c.opts.eq, c.opts.frozen, explicit)).getD "?"
+        if act == "exception" then pure (Json.mkObj [("classError", "TypeError")])
+        else pure (Json.mkObj [("class", classJson c), ("hashAction", .str act)])
       | none => throw "no decls"
   | "construct" | "unchecked" | "dictview" | "copy" | "replace" | "setattr" | "delattr" | "fromdict" =>
     let key ← jstr (← jfield j "cls")
@@ -685,6 +708,37 @@ def runOp (sc : Scen) (j : Json) : P Json := do
         | "setattr" =>
           pure (exceptJson (setattrM (← jbool (jfieldD j "frozen" (.bool true))) info o (← jstr (← jfield j "name")) (← parseVal (← jfield j "val"))))
         | _ => pure (exceptJson (delattrM o (← jstr (← jfield j "name"))))
+  | "cmp" | "repr" =>
+    let a ← parseVal (← jfield j "a")
+    let find : Val → Option ClassEntry := fun (o : Val) => match o with
+      | .obj c _ _ =>
+        match sc.env.classes.find? (fun (ce : ClassEntry) => ce.key == c) with
+        | some ce => some ce
+        | none => sc.env.classes.find? (fun (ce : ClassEntry) => ce.info.name == c)
+      | _ => none
+    let keyOf := fun (o : Val) => (optStrJ (jfieldD j "akey" .null)).getD (match o with | .obj c _ _ => c | _ => "")
+    match find a with
+    | none => throw "cmp: unknown class"
+    | some ce =>
+      let fs : List Order.FieldFlags := ce.info.fields.map fun (f : FieldInfo) => { name := f.name, compare := f.compare, hash := f.hash, repr := f.repr }
+      let mkInst : Val → String → Order.Inst Val := fun (o : Val) (key : String) =>
+        let nm := match o with | .obj c _ _ => c | _ => ""
+        let vals := match o with
+          | .obj _ fvs _ => ce.info.fields.map fun (f : FieldInfo) => ((fvs.find? (fun p => p.1 == f.name)).map (·.2)).getD Val.none
+          | _ => []
+        { origin := (sc.env.classes.findIdx? (fun (c : ClassEntry) => c.info.name == nm)).getD 999
+          exact := (sc.env.classes.findIdx? (fun (c : ClassEntry) => c.key == key)).getD 998, vals := vals }
+      if op == "repr" then
+        return Json.mkObj [("ok", .str (Order.reprInst ce.info.name fs (pyRepr E) (mkInst a (keyOf a))))]
+      let b ← parseVal (← jfield j "b")
+      let ia := mkInst a ((optStrJ (jfieldD j "akey" .null)).getD (match a with | .obj c _ _ => c | _ => ""))
+      let ib := mkInst b ((optStrJ (jfieldD j "bkey" .null)).getD (match b with | .obj c _ _ => c | _ => ""))
+      let eqOpt ← jbool (jfieldD j "eq_opt" (.bool true))
+      let ordOpt ← jbool (jfieldD j "order_opt" (.bool true))
+      let ord := fun (r : Option Bool) => if ordOpt then optBoolJson r else Json.str "NotImplemented"
+      pure (Json.mkObj [("eq", .bool (eqOpt && Order.instEq fs Val.pyEq ia ib)),
+        ("lt", ord (Order.lt fs Val.pyEq pyGt ia ib)), ("le", ord (Order.le fs Val.pyEq pyGt ia ib)),
+        ("gt", ord (Order.gt' fs Val.pyEq pyGt ia ib)), ("ge", ord (Order.ge fs Val.pyEq pyGt ia ib))])
   | "into_dyn" =>
     let v ← parseVal (← jfield j "val")
     pure (exceptJson (dynOf sc E v))
